@@ -24,7 +24,7 @@ fn gen_size() -> usize {
         3 => 4096,
         4 => 4097,
         5 => 8192,
-        6 => 1 << 20,
+        6 => [1 << 20, 2 << 20, (2 << 20) + 1, (2 << 20) + 4096, (2 << 20) + 4097, (4 << 20) - 1, (3 << 20) + 100][c.a(7) as usize],
         _ => 1 + c.a(3 * 4096) as usize,
     }
 }
@@ -150,6 +150,7 @@ impl Scenario for Build {
             // whatever happened, the request is over and its region dropped: nothing may be left
             if cx().sys.live_count() != live_before {
                 cx().violate("C15", "C15/left-mapped", if accepted { "mapping left after dropping an accepted region".into() } else { "rejected request left a mapping behind".to_string() }, format!("step {} {}: {} mapping(s) live, {} before the request", step, line, cx().sys.live_count(), live_before));
+                cx().violate("C12", "C12/leak", if accepted { "mapping left after dropping an accepted region".into() } else { "rejected request left a mapping behind".to_string() }, format!("step {} {}: {} mapping(s) live, {} before the request: {:?}", step, line, cx().sys.live_count(), live_before, cx().sys.live().iter().map(|m| (m.origin, m.len)).collect::<Vec<_>>()));
             }
             #[cfg(feature = "xen")]
             {
@@ -237,7 +238,10 @@ fn one_request(step: usize) -> (String, bool) {
             let ptr = unsafe { p.add(mis) };
             let desc = format!("build_raw(ptr page+{}, size {}, prot {:#x}, flags {:#x})", mis, size, prot, flags);
             // SAFETY: the mapping exists for the duration of the request.
-            let r = catch(|| unsafe { MmapRegion::<()>::build_raw(ptr, size, prot, flags) });
+            let via_builder = cx().a(2) == 0;
+            let desc = if via_builder { format!("MmapRegionBuilder.with_raw_mmap_pointer: {}", desc) } else { desc };
+            // SAFETY: the mapping exists for the duration of the request.
+            let r = if via_builder { catch(|| unsafe { vm_memory::mmap::MmapRegionBuilder::<()>::new(size).with_mmap_prot(prot).with_mmap_flags(flags).with_raw_mmap_pointer(ptr).build() }) } else { catch(|| unsafe { MmapRegion::<()>::build_raw(ptr, size, prot, flags) }) };
             let accepted = match r {
                 OpOutcome::Ok(Ok(reg)) => {
                     verdict("build_raw", "a region", if mis == 0 { "a region" } else { "InvalidPointer" }, &desc);
@@ -279,6 +283,12 @@ fn one_request(step: usize) -> (String, bool) {
                 cx().sys.fail_mmap_at = Some((cx().sys.mmap_calls, [libc::ENOMEM, libc::EACCES, libc::EAGAIN][cx().a(3) as usize]));
             }
             let calls_before = cx().sys.mmap_calls;
+            // a third of the `build` requests go through the builder, half of those with a hugetlbfs hint
+            let builder_opts: Option<Option<bool>> = if cx().a(3) == 0 { Some(if cx().a(2) == 0 { Some(cx().a(2) == 0) } else { None }) } else { None };
+            let desc = match builder_opts {
+                Some(h) if !matches!(form, 5 if with_file) && !matches!(form, 6 if !with_file) => format!("MmapRegionBuilder(hugetlbfs {:?}): {}", h, desc),
+                _ => desc,
+            };
             let (eff_prot, eff_flags);
             let r = match form {
                 5 if with_file => {
@@ -290,6 +300,20 @@ fn one_request(step: usize) -> (String, bool) {
                     eff_prot = libc::PROT_READ | libc::PROT_WRITE;
                     eff_flags = libc::MAP_ANONYMOUS | libc::MAP_NORESERVE | libc::MAP_PRIVATE;
                     catch(|| MmapRegion::<()>::new(size))
+                }
+                _ if builder_opts.is_some() => {
+                    eff_prot = prot;
+                    eff_flags = flags;
+                    catch(|| {
+                        let mut b = vm_memory::mmap::MmapRegionBuilder::<()>::new(size).with_mmap_prot(prot).with_mmap_flags(flags);
+                        if let Some(f) = fo.clone() {
+                            b = b.with_file_offset(f);
+                        }
+                        if let Some(Some(h)) = builder_opts {
+                            b = b.with_hugetlbfs(h);
+                        }
+                        b.build()
+                    })
                 }
                 _ => {
                     eff_prot = prot;
@@ -321,11 +345,19 @@ fn one_request(step: usize) -> (String, bool) {
                     }
                     let foff = reg.file_offset().map(|f| (f.start(), f.file().as_raw_fd()));
                     let want_foff = fo.as_ref().map(|f| (f.start(), f.file().as_raw_fd()));
+                    if let Some(Some(h)) = builder_opts {
+                        if desc.starts_with("MmapRegionBuilder") && reg.is_hugetlbfs() != Some(h) {
+                            cx().violate("C15", "C15/attributes", "hugetlbfs hint of the built region".into(), format!("{}: region reports is_hugetlbfs() = {:?}", desc, reg.is_hugetlbfs()));
+                        }
+                    }
+                    if !cx().sys.covered(reg.as_ptr() as usize, size) {
+                        cx().violate("C12", "C12/early-unmap", "part of a live region is not mapped".into(), format!("{}: the region is alive but not every page of its {} bytes is mapped", desc, size));
+                    }
                     if reg.size() != size || reg.prot() != eff_prot || reg.flags() != eff_flags || !reg.owned() || foff != want_foff {
                         cx().violate("C15", "C15/attributes", "attributes of the built region".into(), format!("{}: region reports size {} prot {:#x} flags {:#x} owned {} file offset {:?}", desc, reg.size(), reg.prot(), reg.flags(), reg.owned(), foff));
                     }
                     match cx().sys.find_live(reg.as_ptr() as usize) {
-                        Some(m) if m.len == size && m.prot == eff_prot && m.flags == eff_flags && m.off as u64 == if with_file { offset } else { 0 } => {}
+                        Some(m) if m.addr == reg.as_ptr() as usize && m.len.div_ceil(PAGE) == size.div_ceil(PAGE) && m.prot == eff_prot && m.flags == eff_flags && (!with_file || m.off as u64 == offset) => {}
                         other => cx().violate("C15", "C15/attributes", "mapping differs from the request".into(), format!("{}: the mapping behind the region is {:?}", desc, other.map(|m| (m.len, m.prot, m.flags, m.off)))),
                     }
                     if let (Some((f, len, true)), true) = (&file, eff_flags & libc::MAP_SHARED != 0 && eff_flags & libc::MAP_ANONYMOUS == 0 && eff_prot == libc::PROT_READ | libc::PROT_WRITE && eff_flags & libc::MAP_PRIVATE == 0) {
